@@ -1,5 +1,7 @@
 import AmaranthVerif.Model.Derived
 import AmaranthVerif.Spec.Derived
+import AmaranthVerif.Model.ShapeCast
+import AmaranthVerif.Model.Dsl
 
 /-!
 # From a derived-operator request to the primitive nodes amaranth builds for it
@@ -21,6 +23,25 @@ def mkShl (ctx : Ctx) (a : Expr) (n : Int) : Expr :=
 def mkShr (ctx : Ctx) (a : Expr) (n : Int) : Expr :=
   if n < 0 then mkShiftLeft ctx a (-n).toNat else mkShiftRight ctx a n.toNat
 
+/-- one pattern of `Value.matches`: `(self & mask) == pattern` for a string, `self == value` for a constant -/
+def mkMatch1 (a : Expr) : MPat → Expr
+  | .bits p => .op2 .eq (.op2 .and a (.const p.maskNat (constShape p.maskNat))) (.const p.valueNat (constShape p.valueNat))
+  | .int k => .op2 .eq a (.const k (constShape k))
+
+/-- `_normalize_patterns`: a string of the wrong width is a SyntaxError (`none`); a constant that the match
+value's shape cannot represent is dropped (with a warning) -/
+def normPats (s : Shape) : List MPat → Option (List MPat)
+  | [] => some []
+  | .bits p :: ps => if p.length = s.width then (normPats s ps).map (.bits p :: ·) else none
+  | .int k :: ps => if s.contains k then (normPats s ps).map (.int k :: ·) else normPats s ps
+
+/-- `self.matches(*patterns)`: `Const(0)`, the single comparison, or `Cat(*comparisons).any()` -/
+def mkMatches (ctx : Ctx) (a : Expr) (ps : List MPat) : Option Expr :=
+  (normPats (shapeOf ctx a) ps).map fun ms => match ms with
+    | [] => .const 0 ⟨1, false⟩
+    | [m] => mkMatch1 a m
+    | ms => .op1 .rany (catList (ms.map (mkMatch1 a)))
+
 def mkDerived (ctx : Ctx) : DOp → List Expr → Option Expr
   | .abs, [a] => some (mkAbs ctx a)
   | .shiftLeft n, [a] => some (mkShl ctx a n)
@@ -29,6 +50,7 @@ def mkDerived (ctx : Ctx) : DOp → List Expr → Option Expr
   | .rotateRight n, [a] => some (mkRotateLeft ctx a (rotAmount (widthOf ctx a) (-n)))
   | .replicate k, [a] => some (mkReplicate a k)
   | .mux, [sel, v1, v0] => some (mkMux ctx sel v1 v0)
+  | .matches ps, [a] => mkMatches ctx a ps
   | _, _ => none
 
 end Amaranth
